@@ -85,6 +85,7 @@ func TestCacheMalformed(t *testing.T) {
 		var evs []Event
 		var notes []string
 		var what string
+		var met map[string]any
 		synctest.Test(t, func(t *testing.T) {
 			e := NewEnv(allNames)
 			var doc []docEntry
@@ -106,6 +107,7 @@ func TestCacheMalformed(t *testing.T) {
 					e.Apply(Step{Do: "read", Name: nm})
 				}
 			}
+			met = e.Metrics()
 			evs = e.Events()
 			notes = append(notes, e.Notes...)
 			e.Cleanup()
@@ -115,7 +117,7 @@ func TestCacheMalformed(t *testing.T) {
 		for _, ev := range evs {
 			w.Put(ev)
 		}
-		w.Put(Event{"ev": "end", "t": 0})
+		w.Put(Event{"ev": "end", "t": 0, "metrics": met})
 		for _, nt := range notes {
 			res.Violate("store-note malformed cache: "+firstWords(nt), fmt.Sprintf("cache contents (%s): %s", what, nt), map[string]any{"history": evs, "what": what})
 		}
